@@ -1840,6 +1840,16 @@ def run(tier: str, driver_ok: bool) -> Result:
                     res.bump("object-vs-standard-reading:compared")
                     if skeleton(impl["ok"]) != std:
                         res.violation("returned object does not carry the numbers and counts of the document", key_case, key="object-differs-from-document", impl=_short(skeleton(impl["ok"])), expected=_short(std))
+            # a start tag wrapped over lines whose continuation is NOT attribute syntax (or repeats an attribute): the document is not
+            # well-formed for any XML parser; an object returned for it was built from a start tag that was only partly parsed
+            if ":wrapped-" in str(c.get("label", "")) and c["kind"] not in ("parse", "parse_attrs"):
+                import xml.etree.ElementTree as _ET
+
+                try:
+                    _ET.fromstring(text_for_key[text_for_key.index("<KSR") :] if "<KSR" in text_for_key else text_for_key)
+                    res.bump("wrapped-start-tag:well-formed-and-loaded")
+                except _ET.ParseError as exc:
+                    res.violation("an object was returned for a document whose wrapped start tag is not well-formed: the rest of the tag was dropped unparsed (partially parsed object)", key_case, key="partial:wrapped-start-tag", standard_parser=str(exc))
             if c["kind"] in ("load_ksr", "load_skr"):
                 if o.get("revalidates") is not True:
                     res.violation("load returned an object that does not validate under the same policy", key_case, key="not-validated", revalidate_error=o.get("revalidate_error"))
